@@ -1,22 +1,37 @@
 ------------------------------ MODULE Numscript ------------------------------
 (***************************************************************************)
-(* Abstract syntax and big-step semantics of Numscript `send` programs as  *)
+(* Abstract syntax and big-step semantics of Numscript programs as         *)
 (* executed by the default *machine* runtime of formancehq/ledger          *)
-(* (internal/machine: compiler + bytecode VM), plus an amount-level        *)
-(* ("ideal") semantics in the style of the interpreter runtime, the        *)
-(* allotment allocation function, and the theorems of properties           *)
-(* C22 / C23 / C24 stated as predicates that TLC checks on every           *)
-(* enumerated or sampled case (MC_Numscript*.tla).                         *)
+(* (internal/machine: compiler + bytecode VM):                             *)
+(*   send [A n] / send [A *] / send $v with monetary $v = balance(@x, A),  *)
+(*   sources: account, `allowing overdraft up to`, `allowing unbounded     *)
+(*   overdraft`, @world, `max X from S`, in-order { s1 s2 }, allotment     *)
+(*   { 1/2 from s1  remaining from s2 };                                   *)
+(*   destinations: account, in-order { max X to d1  remaining to d2 },     *)
+(*   allotment { 1/3 to d1 ... remaining kept }, `kept`;                   *)
+(*   several statements (funds received earlier can be spent), `save`,     *)
+(*   set_tx_meta, set_account_meta.  Variables are substitution: the       *)
+(*   harness renders every case once with literals and once with a         *)
+(*   `vars` block, the outcome is the same.                                *)
 (*                                                                         *)
-(* The machine semantics is modelled *as the code behaves*, i.e. at the    *)
-(* level of "fundings" (ordered lists of (account, amount) parts):         *)
+(*   Run(program, balances) = [ok, err, posts, fin, txm, am, ...]          *)
+(*   Allocate(portions, amount)           (allotments, C24)                *)
+(*   Ideal(program, balances)             amount-level semantics in the    *)
+(*                                        style of the interpreter runtime *)
+(*                                                                         *)
+(* and the theorems of C22 / C23 / C24 as predicates that TLC checks on    *)
+(* every enumerated or sampled case (MC_Numscript.tla,                     *)
+(* MC_NumscriptAllot.tla).                                                 *)
+(*                                                                         *)
+(* The machine semantics is modelled *as the code behaves*, at the level   *)
+(* of "fundings" (ordered lists of (account, amount) parts):               *)
 (*  - every bounded account of a source is drained completely (balance +   *)
 (*    overdraft allowance, or 0 when that is not positive) in textual      *)
 (*    order, the required amount is taken from the front of the resulting  *)
 (*    list, and the rest is repaid;                                        *)
 (*  - @world / `allowing unbounded overdraft` contribute a 0-part and act  *)
 (*    as fallback for whatever is missing (only allowed in last position); *)
-(*  - parts with amount 0 are kept in fundings and therefore show up as    *)
+(*  - parts with amount 0 stay in fundings and therefore show up as        *)
 (*    zero-amount postings; taking 0 from a non-empty funding yields one   *)
 (*    0-part of its first account;                                         *)
 (*  - adjacent parts of the same account are merged when fundings are      *)
@@ -24,9 +39,18 @@
 (*  - in destinations, what a clause keeps (`kept`, or the remainder of a  *)
 (*    nested destination) is put back at the FRONT of the funding, so the  *)
 (*    next clause draws from it first; the in-order destination finally    *)
-(*    separates the kept total from the BACK of the funding.               *)
+(*    separates its accumulated kept total from the BACK of the funding,   *)
+(*    which fails ("insufficient funds") when a later clause has consumed  *)
+(*    kept funds;                                                          *)
 (*  - balances are tracked only for (account, asset) pairs that are        *)
-(*    bounded sources of some send of the script (or balance() variables). *)
+(*    bounded sources of some send of the script (or balance() variables); *)
+(*    `save` lowers the tracked balance (possibly below 0).                *)
+(*                                                                         *)
+(* Where the funding-level and the amount-level semantics differ is        *)
+(* characterised exactly (TLC: ThmIdealOk/Dest/Postings/Balances):         *)
+(*   class K  a clause that keeps funds is followed by another clause,     *)
+(*   class Z  same-account parts separated by a zero-amount part,          *)
+(*   class S  `save [A n]` takes a tracked balance below zero.             *)
 (***************************************************************************)
 EXTENDS Integers, Sequences, FiniteSets, TLC
 
@@ -62,6 +86,7 @@ VMon(as, n)  == [t |-> "monetary", s |-> as, n |-> n, d |-> 1]
 VPort(n, d)  == [t |-> "portion",  s |-> "", n |-> n, d |-> d]
 TxMeta(key, v)      == [k |-> "txmeta", key |-> key, val |-> v]
 AcctMeta(a, key, v) == [k |-> "acctmeta", a |-> a, key |-> key, val |-> v]
+Save(as, amt, a)    == [k |-> "save", asset |-> as, amt |-> amt, a |-> a]    \* amt = AllAmt: save [A *] from @a
 
 \* ---------------------------------------------------------------- arithmetic
 RECURSIVE Gcd(_, _)
@@ -379,7 +404,9 @@ SetAKV(m, a, key, val) ==
     SelectSeq(m, LAMBDA e : ~(e.a = a /\ e.k = key)) \o <<[a |-> a, k |-> key, v |-> val]>>
 
 \* ---------------------------------------------------------------- statements and programs
-Err(e, bal0) == [ok |-> FALSE, err |-> e, posts |-> <<>>, fin |-> bal0, txm |-> <<>>, am |-> <<>>, sends |-> <<>>]
+ZeroBal(bal0) == [a \in DOMAIN bal0 |-> [as \in DOMAIN bal0[a] |-> 0]]
+Err(e, bal0, sneg) == [ok |-> FALSE, err |-> e, posts |-> <<>>, fin |-> bal0, txm |-> <<>>, am |-> <<>>, sends |-> <<>>,
+                       sv |-> ZeroBal(bal0), sneg |-> sneg]
 
 \* one send; st = [bal, posts, txm, am, sends]; bal0 = balances before the script (balance() variables)
 RunSend(s, st, tr, bal0) ==
@@ -402,14 +429,27 @@ RunSend(s, st, tr, bal0) ==
                ELSE [ok |-> TRUE, err |-> "",
                      st |-> [st EXCEPT !.bal = balF, !.posts = d.st.posts, !.sends = @ \o <<summary>>]]
 
+\* `save`: hides funds from the tracked balance of a (tracked) account so that later sources cannot
+\* take them; no posting. OP_SAVE: `save [A *]` sets a positive tracked balance to 0, `save [A n]`
+\* subtracts n (the tracked balance may become negative: st.sneg records that, "class S").
+\* st.sv accumulates what has been hidden.
+RunSave(s, st, tr) ==
+    IF <<s.a, s.asset>> \notin tr THEN st
+    ELSE LET b == st.bal[s.a][s.asset]
+             d == IF s.amt = AllAmt THEN (IF b > 0 THEN b ELSE 0) ELSE s.amt
+         IN [st EXCEPT !.bal[s.a][s.asset] = b - d, !.sv[s.a][s.asset] = @ + d,
+                       !.sneg = @ \/ (s.amt # AllAmt /\ b - d < 0)]
+
 RECURSIVE RunStmts(_, _, _, _, _)
 RunStmts(prog, i, st, tr, bal0) ==
     IF i > Len(prog)
-    THEN [ok |-> TRUE, err |-> "", posts |-> st.posts, fin |-> st.bal, txm |-> st.txm, am |-> st.am, sends |-> st.sends]
+    THEN [ok |-> TRUE, err |-> "", posts |-> st.posts, fin |-> st.bal, txm |-> st.txm, am |-> st.am, sends |-> st.sends,
+          sv |-> st.sv, sneg |-> st.sneg]
     ELSE LET s == prog[i] IN
          CASE s.k = "send" ->
                 LET r == RunSend(s, st, tr, bal0)
-                IN IF ~r.ok THEN Err(r.err, bal0) ELSE RunStmts(prog, i + 1, r.st, tr, bal0)
+                IN IF ~r.ok THEN Err(r.err, bal0, st.sneg) ELSE RunStmts(prog, i + 1, r.st, tr, bal0)
+           [] s.k = "save" -> RunStmts(prog, i + 1, RunSave(s, st, tr), tr, bal0)
            [] s.k = "txmeta" ->
                 RunStmts(prog, i + 1, [st EXCEPT !.txm = SetKV(@, s.key, ValStr(s.val))], tr, bal0)
            [] s.k = "acctmeta" ->
@@ -417,10 +457,11 @@ RunStmts(prog, i, st, tr, bal0) ==
 
 \* Run(program, balances): the outcome the machine runtime must produce
 Run(prog, bal0) ==
-    IF ~WfProg(prog) THEN Err("compile", bal0)
+    IF ~WfProg(prog) THEN Err("compile", bal0, FALSE)
     ELSE IF \E i \in SendIdx(prog) : prog[i].amt = BalAmt /\ bal0[prog[i].ba][prog[i].asset] < 0
-    THEN Err("negbalance", bal0)
-    ELSE RunStmts(prog, 1, [bal |-> bal0, posts |-> <<>>, txm |-> <<>>, am |-> <<>>, sends |-> <<>>],
+    THEN Err("negbalance", bal0, FALSE)
+    ELSE RunStmts(prog, 1, [bal |-> bal0, posts |-> <<>>, txm |-> <<>>, am |-> <<>>, sends |-> <<>>,
+                            sv |-> ZeroBal(bal0), sneg |-> FALSE],
                   Tracked(prog), bal0)
 
 \* ---------------------------------------------------------------- amount-level ("ideal") semantics
@@ -504,11 +545,20 @@ RECURSIVE IdealCredit(_, _, _)
 IdealCredit(bal, as, ps) == IF ps = <<>> THEN bal ELSE
     IdealCredit(IF ps[1].d = World THEN bal ELSE [bal EXCEPT ![ps[1].d][as] = @ + ps[1].n], as, Tail(ps))
 
+\* interpreter-style `save`: the balance is lowered but never below 0 (and a balance that would end
+\* below 0 - even one that was already negative - is set to 0)
+IdealSave(s, bal) ==
+    IF s.a = World THEN bal
+    ELSE LET b == bal[s.a][s.asset] IN
+         IF s.amt = AllAmt THEN (IF b > 0 THEN [bal EXCEPT ![s.a][s.asset] = 0] ELSE bal)
+         ELSE [bal EXCEPT ![s.a][s.asset] = Max(0, b - s.amt)]
+
 RECURSIVE IdealRun(_, _, _, _, _)
 IdealRun(prog, i, bal, posts, bal0) ==
     IF i > Len(prog) THEN [ok |-> TRUE, posts |-> posts, fin |-> bal]
     ELSE LET s == prog[i] IN
-         IF s.k # "send" THEN IdealRun(prog, i + 1, bal, posts, bal0)
+         IF s.k = "save" THEN IdealRun(prog, i + 1, IdealSave(s, bal), posts, bal0)
+         ELSE IF s.k # "send" THEN IdealRun(prog, i + 1, bal, posts, bal0)
          ELSE LET as == s.asset
                   amt == IF s.amt = BalAmt THEN bal0[s.ba][as] ELSE s.amt
                   t == IF s.amt = AllAmt
@@ -588,14 +638,16 @@ ThmSum(r)    == r.ok => \A k \in 1..Len(r.sends) :
                    /\ (~sd.all => sd.total = sd.amt)
                    /\ sd.kept >= 0
 ThmNoKeptPosting(r) == r.ok => \A i \in 1..Len(r.posts) : r.posts[i].d # Kept /\ r.posts[i].s # Kept
-\* tracked balances = initial balances + postings
+\* tracked balances = initial balances + postings (- what `save` statements have hidden)
 ThmBalances(prog, bal0, r) == r.ok => \A p \in Tracked(prog) :
                    r.fin[p[1]][p[2]] = bal0[p[1]][p[2]] + Inflow(r.posts, p[1], p[2]) - Outflow(r.posts, p[1], p[2])
+                                       - r.sv[p[1]][p[2]]
 ThmUntracked(prog, bal0, r) == r.ok => \A a \in DOMAIN bal0 : \A as \in DOMAIN bal0[a] :
                    <<a, as>> \notin Tracked(prog) => r.fin[a][as] = bal0[a][as]
 \* C23: bounded sources are never overdrawn (whole script, and send by send)
+\* (on the account's real balance initial + postings; the tracked one is lower by what `save` hid)
 ThmBounded(prog, bal0, r) == r.ok => \A b \in BoundedPairs(prog) :
-                   r.fin[b.a][b.as] >= Min(bal0[b.a][b.as], 0 - b.bound)
+                   bal0[b.a][b.as] + Inflow(r.posts, b.a, b.as) - Outflow(r.posts, b.a, b.as) >= Min(bal0[b.a][b.as], 0 - b.bound)
 ThmBoundedPerSend(prog, r) == r.ok =>
     LET idx == SendIdx(prog)
         nth(k) == CHOOSE i \in idx : Cardinality({j \in idx : j < i}) = k - 1
@@ -610,11 +662,17 @@ ThmBoundedPerSend(prog, r) == r.ok =>
 \* the funding-level semantics refines the amount-level one:
 \*  same success, same amounts per destination, available funds for `*`; identical non-zero
 \*  postings unless a kept clause precedes a receiving clause
+\* Class S: a `save [A n]` brought a tracked balance below 0 (r.sneg): the machine keeps the negative
+\* tracked balance, the amount-level semantics clamps at 0, so later sources with an overdraft
+\* allowance see different funds.
+Diverges(prog, r) == ProgKeptBeforeReceiver(prog) \/ r.sneg
 ThmIdealOk(prog, r, id) == (r.err # "compile" /\ r.err # "negbalance") =>
-    /\ (r.ok => id.ok)
-    /\ (~ProgKeptBeforeReceiver(prog) => (r.ok <=> id.ok))
+    /\ (~Diverges(prog, r) => (r.ok <=> id.ok))
+    \* in class K the machine may fail where the amount-level semantics succeeds, not the converse
+    \* (single send; with several sends the different attribution changes what later sends find)
+    /\ ((Cardinality(SendIdx(prog)) = 1 /\ r.ok) => id.ok)
 \* (class K changes which source account pays, which can change what later sends find: single send only)
-ThmIdealDest(prog, r, id) == (r.ok /\ (~ProgKeptBeforeReceiver(prog) \/ Cardinality(SendIdx(prog)) = 1)) =>
+ThmIdealDest(prog, r, id) == (r.ok /\ ~r.sneg /\ (~ProgKeptBeforeReceiver(prog) \/ Cardinality(SendIdx(prog)) = 1)) =>
     LET dests == {r.posts[i].d : i \in 1..Len(r.posts)} \cup {id.posts[i].d : i \in 1..Len(id.posts)}
         assets == {r.posts[i].as : i \in 1..Len(r.posts)}
     IN \A d \in dests : \A as \in assets : Inflow(r.posts, d, as) = Inflow(id.posts, d, as)
@@ -623,10 +681,10 @@ ThmIdealDest(prog, r, id) == (r.ok /\ (~ProgKeptBeforeReceiver(prog) \/ Cardinal
 \* zero-amount part of another account between them (e.g. [a 2, world 0, a 1]) leaves two postings
 \* a->d 2, a->d 1 where the amount-level semantics (no zero parts) has the single posting a->d 3
 \* ("class Z", flagged per case by ZeroPartSplit).
-ThmIdealPostings(prog, r, id) == (r.ok /\ ~ProgKeptBeforeReceiver(prog)) =>
+ThmIdealPostings(prog, r, id) == (r.ok /\ ~Diverges(prog, r)) =>
     Coalesce(NonZero(r.posts)) = Coalesce(id.posts)
-ZeroPartSplit(prog, r, id) == r.ok /\ id.ok /\ ~ProgKeptBeforeReceiver(prog) /\ NonZero(r.posts) # id.posts
-ThmIdealBalances(prog, r, id) == (r.ok /\ ~ProgKeptBeforeReceiver(prog)) =>
+ZeroPartSplit(prog, r, id) == r.ok /\ id.ok /\ ~Diverges(prog, r) /\ NonZero(r.posts) # id.posts
+ThmIdealBalances(prog, r, id) == (r.ok /\ ~Diverges(prog, r)) =>
     \A p \in Tracked(prog) : r.fin[p[1]][p[2]] = id.fin[p[1]][p[2]]
 
 AllTheorems(prog, bal0, r, id) ==
@@ -642,6 +700,6 @@ Outcome(prog, r, id) ==
     [ok |-> r.ok, err |-> r.err, posts |-> r.posts, fin |-> r.fin, txm |-> r.txm, am |-> r.am,
      tracked |-> Tracked(prog), bounded |-> BoundedPairs(prog),
      iok |-> id.ok, iposts |-> id.posts, kbr |-> ProgKeptBeforeReceiver(prog),
-     zsplit |-> ZeroPartSplit(prog, r, id)]
+     zsplit |-> ZeroPartSplit(prog, r, id), sneg |-> r.sneg]
 
 =============================================================================
